@@ -17,8 +17,11 @@ _cache = {}
 
 
 def module_path(mod):
-    """mod like 'lisp_parsers.pddl_tokenizer'"""
-    return REPO / PKG / (mod.replace(".", "/") + ".py")
+    """mod like 'lisp_parsers.pddl_tokenizer'; a package resolves to its __init__.py"""
+    p = REPO / PKG / (mod.replace(".", "/") + ".py")
+    if not p.exists() and (REPO / PKG / mod.replace(".", "/") / "__init__.py").exists():
+        return REPO / PKG / mod.replace(".", "/") / "__init__.py"
+    return p
 
 
 def load_module(mod):
@@ -80,9 +83,26 @@ def find_function(key):
     return FunctionSource(key, node, ast.get_source_segment(text, node), tree, mod, cls)
 
 
-def module_constant(mod, name):
-    """Module-level `NAME = <literal>` evaluated with ast.literal_eval; returns (found, value)."""
+def module_constant(mod, name, depth=0):
+    """Module-level `NAME = <literal>` evaluated with ast.literal_eval; returns (found, value).  Names re-exported by a package's
+    __init__ (`from .x import NAME`) are followed."""
     text, tree = load_module(mod)
+    if depth < 4:
+        for node in tree.body:
+            if isinstance(node, ast.ImportFrom) and any((a.asname or a.name) == name for a in node.names):
+                orig = next(a.name for a in node.names if (a.asname or a.name) == name)
+                is_pkg = module_path(mod).name == "__init__.py"
+                base = mod if is_pkg else (mod.rsplit(".", 1)[0] if "." in mod else "")
+                if node.level and node.module:
+                    target = f"{base}.{node.module}" if base else node.module
+                elif node.module and node.module.startswith(PKG + "."):
+                    target = node.module[len(PKG) + 1:]
+                else:
+                    continue
+                try:
+                    return module_constant(target, orig, depth + 1)
+                except FileNotFoundError:
+                    continue
     for node in tree.body:
         if isinstance(node, ast.Assign) and any(isinstance(t, ast.Name) and t.id == name for t in node.targets):
             try:
